@@ -145,11 +145,22 @@ def solver_order_frames():
                   vc=f'{len(uses)} uses', witness=None if ok else {'other_uses_at_lines': [b.lineno for b in other]}, replay=None if ok else {'reproduced': True, 'static': True}))
     isrc = open(inputs.__file__).read()
     itree = ast.parse(isrc)
-    allowed = {'has_option', 'get', 'set', 'add_section', 'sections', 'write', 'read_file', 'remove_option', 'remove_section'}
+    allowed = {'has_option', 'get', 'set', 'add_section', 'sections', 'write', 'read_file', 'remove_option', 'remove_section', 'defaults'}
     problems = []
     for cls in [n for n in itree.body if isinstance(n, ast.ClassDef) and n.name == 'InputStore']:
         for fn in [n for n in cls.body if isinstance(n, ast.FunctionDef)]:
+            parent = {}
             for n in ast.walk(fn):
+                for c in ast.iter_child_nodes(n):
+                    parent[c] = n
+            for n in ast.walk(fn):
+                # self.config.defaults() is a mapping: only keyed uses (k in defaults(), defaults().get(k)) are order-independent
+                if isinstance(n, ast.Call) and isinstance(n.func, ast.Attribute) and n.func.attr == 'defaults' and isinstance(n.func.value, ast.Attribute) and n.func.value.attr == 'config':
+                    up = parent.get(n)
+                    keyed = (isinstance(up, ast.Compare) and n in up.comparators and all(isinstance(o, (ast.In, ast.NotIn)) for o in up.ops)) or \
+                            (isinstance(up, ast.Attribute) and up.attr == 'get' and isinstance(parent.get(up), ast.Call))
+                    if not keyed:
+                        problems.append(f'{fn.name}: self.config.defaults() used other than by key')
                 if isinstance(n, ast.Attribute) and isinstance(n.value, ast.Attribute) and n.value.attr == 'config' and isinstance(n.value.value, ast.Name) and n.value.value.id == 'self':
                     if n.attr not in allowed:
                         problems.append(f'{fn.name}: self.config.{n.attr}')
@@ -161,7 +172,7 @@ def solver_order_frames():
                     problems.append(f'{fn.name}: subscripts the configuration')
     ok = not problems
     obs.append(Ob(id='C05/frames/InputStore-keyed-access-only', status=oblig.DISCHARGED if ok else oblig.REFUTED, backend='ast-scan', function='inputs.py:InputStore',
-                  clause='the methods the solver uses reach the configuration only through has_option/get/set/add_section/sections/write/read_file - never iterate it - so by A-CFG results are a function of the parsed map (invariant under reordering sections and keys in the file)',
+                  clause='the methods the solver uses reach the configuration only through has_option/get/set/add_section/sections/write/read_file and keyed lookups in defaults() - never iterate it - so by A-CFG results are a function of the parsed map (invariant under reordering sections and keys in the file)',
                   vc='AST of class InputStore', witness=None if ok else {'problems': problems[:5]}, replay=None if ok else {'reproduced': True, 'static': True}))
     return obs
 
